@@ -6,7 +6,7 @@ import asyncio
 import math
 from typing import Any
 
-from . import vloop
+from . import uvrun, vloop
 from .replay import Recorder, ScenarioController, ensure_repo_on_path
 
 INF = 99
@@ -21,7 +21,7 @@ class _Borrower:
         self.n = n
 
 
-def run_scenario(scn: dict, *, total: int = 1, eager: bool = False) -> dict:
+def run_scenario(scn: dict, *, total: int = 1, eager: bool = False, uv: bool = False) -> dict:
     ensure_repo_on_path()
     import anyio
 
@@ -128,7 +128,7 @@ def run_scenario(scn: dict, *, total: int = 1, eager: bool = False) -> dict:
                     release("foreign")
 
     async def main() -> None:
-        loop = state["loop"] = asyncio.get_running_loop()
+        loop = state["loop"] = uvrun.view(asyncio.get_running_loop())
         state["lim"] = anyio.CapacityLimiter(math.inf if total >= INF else total)
         state["scopes"] = {t: anyio.CancelScope() for t in range(1, nt + 1)}
         state["foreign"] = {t: _Borrower(10 + t) for t in range(1, nt + 1)}
@@ -138,7 +138,7 @@ def run_scenario(scn: dict, *, total: int = 1, eager: bool = False) -> dict:
         await asyncio.wait(list(state["tasks"].values()))
         quiescent()
 
-    loop, _res, err = vloop.run(main, ctl, eager=eager, max_handles=20000)
+    loop, _res, err = (uvrun.run if uv else vloop.run)(main, ctl, eager=eager, max_handles=20000)
     rec.closed = True
     flags = {"deadlock": isinstance(err, vloop.Deadlock), "budget": loop.budget_exceeded,
              "error": None if err is None or isinstance(err, (vloop.Deadlock, vloop.BudgetExceeded))
